@@ -8,10 +8,11 @@ from collections import Counter
 
 import framework as fw
 
-CHIP_FIELDS = {'bets', 'stacks', 'payoffs', 'pots_', 'subpots', 'pots', 'total_pot'}
+CHIP_FIELDS = {'bets', 'stacks', 'payoffs', 'pots_', 'subpots', 'pots', 'total_pot', 'pot_amounts'}
 CHIP_OPS = {'AntePosting', 'BetCollection', 'BlindOrStraddlePosting', 'CheckingOrCalling',
             'BringInPosting', 'CompletionBettingOrRaisingTo', 'ChipsPushing', 'ChipsPulling'}
-CARD_FIELDS = {'deck', 'board', 'mucked', 'burned', 'hole', 'discarded', 'holeSt', 'in_play', 'out_play'}
+CARD_FIELDS = {'deck', 'board', 'mucked', 'burned', 'hole', 'discarded', 'holeSt', 'in_play', 'out_play',
+               'censored', 'down', 'up'}
 CARD_OPS = {'CardBurning', 'HoleDealing', 'BoardDealing', 'StandingPatOrDiscarding',
             'HoleCardsShowingOrMucking', 'Folding', 'HandKilling'}
 PHASE_FIELDS = {'status', 'street', 'ante', 'collect', 'blind', 'burn', 'holeDeal', 'boardDeal', 'pat',
@@ -25,6 +26,7 @@ BET_FIELDS = {'actors', 'cbrAmt', 'cbrCnt', 'acted', 'consec', 'bringin', 'compl
               'can_fold', 'can_call', 'can_bring_in', 'can_cbr', 'eff'}
 BET_OPS = {'Folding', 'CheckingOrCalling', 'BringInPosting', 'CompletionBettingOrRaisingTo'}
 DEAL_FIELDS = {'burn', 'holeDeal', 'boardDeal', 'pat', 'holeSt', 'hole', 'board', 'dealee', 'bdc', 'pat_idx',
+               'censored', 'down', 'up',
                'can_burn', 'can_deal_hole', 'can_deal_board', 'can_draw'}
 DEAL_OPS = {'CardBurning', 'HoleDealing', 'BoardDealing', 'StandingPatOrDiscarding'}
 RUNOUT_FIELDS = {'selectors', 'runout', 'rflag', 'sri', 'src', 'board_count', 'board', 'can_runout', 'runout_ix'}
